@@ -479,7 +479,11 @@ func (node *GoValueNode) CallFunction(funcName string, args ...reflect.Value) (r
 		case "Len":
 			arrFunc = ArrMapLen
 		case "Append":
-			node.AppendValue(args)
+			err := node.AppendValue(args)
+			if err != nil {
+
+				return reflect.Value{}, err
+			}
 
 			return reflect.Value{}, nil
 		}
